@@ -789,11 +789,11 @@ Proof.
   destruct (h5_is_link d l); [|discriminate]. unfold ADF_MAXIMUM_LINK_DEPTH.
   destruct (Z.geb_spec (depth + 1) 100); [discriminate|].
   assert (H1 : forall x, h5_open_link_1 d l = Err x -> x <> EStack).
-  { unfold h5_open_link_1. intros x. destruct (node_at d l) as [n0|]; [|intros H; inversion H; discriminate].
+  { unfold h5_open_link_1. intros x. destruct (node_at d l) as [n0|]; [|intros HH; inversion HH; discriminate].
     destruct (n_link n0) as [[file path]|]; [|discriminate].
     destruct (if nonempty file then match h5_first d (h5_cands (fst l) file) with Some p => Some (p, root_uid) | None => None end
-              else Some (root_of l)) as [rt|]; [|intros H; inversion H; discriminate].
-    destruct (raw_walk d rt (tokens path)); [discriminate|intros H; inversion H; discriminate]. }
+              else Some (root_of l)) as [rt|]; [|intros HH; inversion HH; discriminate].
+    destruct (raw_walk d rt (tokens path)); [discriminate|intros HH; inversion HH; discriminate]. }
   destruct (h5_open_link_1 d l) as [l'|x] eqn:E; [apply IH; lia|]. intros HH. inversion HH. now apply (H1 x).
 Qed.
 
@@ -880,85 +880,92 @@ Fixpoint chain_nodes (n : nat) : table :=                      (* L_k (uid k+1) 
 Definition chain_world (n : nat) : disk :=
   [mkD fA 1 (adf_root_table ++ [mkN 1 0 [84] [116] s_MT [] [] None] ++ chain_nodes n)].
 
-Example chain_100_resolves : snd (chase v true 3 (chain_world 100) empty_env rs0 (fA, 101)) = Ok (fA, 1).
+Example chain_100_resolves : snd (chase Cur true 100 (chain_world 100) empty_env rs0 (fA, 101)) = Ok (fA, 1).
 Proof. vm_compute. reflexivity. Qed.
-Example chain_101_too_deep : snd (chase v true 3 (chain_world 101) empty_env rs0 (fA, 102)) = Err ETooDeep.
+Example chain_101_too_deep : snd (chase Cur true 100 (chain_world 101) empty_env rs0 (fA, 102)) = Err ETooDeep.
 Proof. vm_compute. reflexivity. Qed.
-Example chain_101_hops : exists s' t, hops (chase v true 2 (chain_world 101) empty_env) (chain_world 101) empty_env 101 rs0 (fA, 102) = Some (s', t).
+Example chain_101_hops : exists s' t, hops (chase Cur true 99 (chain_world 101) empty_env) (chain_world 101) empty_env 101 rs0 (fA, 102) = Some (s', t).
 Proof. eexists. eexists. vm_compute. reflexivity. Qed.
 Definition w_cycle2 : disk :=
   [mkD fA 1 (adf_root_table ++ [mkN 1 0 [80] [] s_LK [] [] (Some ([], [47; 81])); mkN 2 0 [81] [] s_LK [] [] (Some ([], [47; 80]))])].
-Example cycle_too_deep : snd (chase v true 3 w_cycle2 empty_env rs0 (fA, 1)) = Err ETooDeep.
+(* the same boundary through ADFH's open_link loop *)
+Definition h5_chain_world (n : nat) : disk :=
+  [mkD fH 2 (h5_root_table ++ [mkN 1 0 [84] [116] s_MT [] [] None] ++ chain_nodes n)].
+Example h5_chain_100_resolves : h5_open_link Cur (h5_chain_world 100) (fH, 101) = Ok (fH, 1).
+Proof. vm_compute. reflexivity. Qed.
+Example h5_chain_101_too_deep : h5_open_link Cur (h5_chain_world 101) (fH, 102) = Err ETooDeep.
+Proof. vm_compute. reflexivity. Qed.
+Example cycle_too_deep : snd (chase Cur true 100 w_cycle2 empty_env rs0 (fA, 1)) = Err ETooDeep.
 Proof. vm_compute. reflexivity. Qed.
 
 (* ===================================================================================================================
    11. the cache, when it holds what full resolution returns, changes no answer -- and is filled only with such pairs
    =================================================================================================================== *)
 (* full resolution with recursion budget F, from any state *)
-Definition U (d : disk) (e : env) (F : nat) : chaser := chase v false F d e.
+Definition U v (d : disk) (e : env) (F : nat) : chaser := chase v false F d e.
 
 (* r1 "is refined by" r2: equal, or (when b) r1 ran out of budget *)
-Definition Rb (b : bool) (r1 r2 : res nid) : Prop := r1 = r2 \/ (b = true /\ r1 = Err EStack).
-Definition obl (b : bool) (ch1 ch2 : chaser) : Prop := forall s1 s2 i, Rb b (snd (ch1 s1 i)) (snd (ch2 s2 i)).
+Definition Rb v (b : bool) (r1 r2 : res nid) : Prop := r1 = r2 \/ (b = true /\ r1 = Err (oob v)).
+Definition obl v (b : bool) (ch1 ch2 : chaser) : Prop := forall s1 s2 i, Rb v b (snd (ch1 s1 i)) (snd (ch2 s2 i)).
 
-Lemma Rb_refl b r : Rb b r r.
+Lemma Rb_refl v b r : Rb v b r r.
 Proof. now left. Qed.
 
-Lemma gni_walk_obl b ch1 ch2 d : obl b ch1 ch2 -> forall toks s1 s2 cur,
-  Rb b (snd (gni_walk ch1 d s1 cur toks)) (snd (gni_walk ch2 d s2 cur toks)).
+Lemma gni_walk_obl v b ch1 ch2 d : obl v b ch1 ch2 -> forall toks s1 s2 cur,
+  Rb v b (snd (gni_walk ch1 d s1 cur toks)) (snd (gni_walk ch2 d s2 cur toks)).
 Proof.
-  intros H. induction toks as [|t rest IH]; intros s1 s2 cur; cbn [gni_walk]; [apply Rb_refl|].
-  destruct (child_named d cur t) as [k|]; [|apply Rb_refl]. destruct rest as [|t2 rest]; [apply Rb_refl|].
+  intros H. induction toks as [|t rest IH]; intros s1 s2 cur; cbn [gni_walk]; [apply (Rb_refl v)|].
+  destruct (child_named d cur t) as [k|]; [|apply (Rb_refl v)]. destruct rest as [|t2 rest]; [apply (Rb_refl v)|].
   specialize (H s1 s2 k). destruct (ch1 s1 k) as [a1 r1], (ch2 s2 k) as [a2 r2]. cbn [snd] in H.
   destruct H as [<-|[Hb ->]].
-  - destruct r1 as [l|x]; [apply IH|apply Rb_refl].
+  - destruct r1 as [l|x]; [apply IH|apply (Rb_refl v)].
   - right. split; [assumption|reflexivity].
 Qed.
 
-Lemma get_node_id_obl b ch1 ch2 d s1 s2 pid name : obl b ch1 ch2 ->
-  Rb b (snd (get_node_id ch1 d s1 pid name)) (snd (get_node_id ch2 d s2 pid name)).
+Lemma get_node_id_obl v b ch1 ch2 d s1 s2 pid name : obl v b ch1 ch2 ->
+  Rb v b (snd (get_node_id ch1 d s1 pid name)) (snd (get_node_id ch2 d s2 pid name)).
 Proof.
-  intros H. unfold get_node_id. destruct (lenZ name =? 0); [apply Rb_refl|].
-  destruct ((hd 0 name =? 47) && (lenZ name =? 1)); [apply Rb_refl|].
-  destruct (tokens name) as [|t toks]; [apply Rb_refl|].
+  intros H. unfold get_node_id. destruct (lenZ name =? 0); [apply (Rb_refl v)|].
+  destruct ((hd 0 name =? 47) && (lenZ name =? 1)); [apply (Rb_refl v)|].
+  destruct (tokens name) as [|t toks]; [apply (Rb_refl v)|].
   set (start := if hd 0 name =? 47 then root_of pid else pid).
   pose proof (H s1 s2 start) as Hs. destruct (ch1 s1 start) as [a1 r1], (ch2 s2 start) as [a2 r2]. cbn [snd] in Hs.
   destruct Hs as [<-|[Hb ->]].
-  - destruct r1 as [l|x]; [now apply gni_walk_obl|apply Rb_refl].
+  - destruct r1 as [l|x]; [now apply (gni_walk_obl v)|apply (Rb_refl v)].
   - right. split; [assumption|reflexivity].
 Qed.
 
 (* the same on the result of a hop *)
-Definition Rh (b : bool) (r1 r2 : res (option nid)) : Prop := r1 = r2 \/ (b = true /\ r1 = Err EStack).
+Definition Rh v (b : bool) (r1 r2 : res (option nid)) : Prop := r1 = r2 \/ (b = true /\ r1 = Err (oob v)).
 
-Lemma hop_obl b ch1 ch2 d e s1 s2 lk : obl b ch1 ch2 -> Rh b (snd (hop ch1 d e s1 lk)) (snd (hop ch2 d e s2 lk)).
+Lemma hop_obl v b ch1 ch2 d e s1 s2 lk : obl v b ch1 ch2 -> Rh v b (snd (hop ch1 d e s1 lk)) (snd (hop ch2 d e s2 lk)).
 Proof.
   intros H. unfold hop. destruct (node_at d lk) as [r|]; [|now left].
   destruct (adf_link_of r) as [[file path]|]; [|now left].
-  assert (G : forall a1 a2 root, Rh b
+  assert (G : forall a1 a2 root, Rh v b
             (snd (let '(s1', r1) := get_node_id ch1 d a1 root path in
                   match r1 with Err ENotFound => (s1', Err ELinkTarget) | Err x => (s1', Err x) | Ok t => (s1', Ok (Some t)) end))
             (snd (let '(s2', r2) := get_node_id ch2 d a2 root path in
                   match r2 with Err ENotFound => (s2', Err ELinkTarget) | Err x => (s2', Err x) | Ok t => (s2', Ok (Some t)) end))).
-  { intros a1 a2 root. pose proof (get_node_id_obl b ch1 ch2 d a1 a2 root path H) as Hg.
+  { intros a1 a2 root. pose proof (get_node_id_obl v b ch1 ch2 d a1 a2 root path H) as Hg.
     destruct (get_node_id ch1 d a1 root path) as [x1 r1], (get_node_id ch2 d a2 root path) as [x2 r2]. cbn [snd] in Hg.
-    destruct Hg as [<-|[Hb ->]]; [left; destruct r1 as [t|[]]; reflexivity|right; split; [assumption|reflexivity]]. }
+    destruct Hg as [<-|[Hb ->]]; [left; destruct r1 as [t|[]]; reflexivity|right; split; [assumption|destruct v; reflexivity]]. }
   destruct (nonempty file); [|apply G].
   destruct (find_file d e (fst lk) file 1 (ADF_FILENAME_LENGTH + 1)); try (now left). apply G.
 Qed.
 
-Lemma chase_loop_obl b ch1 ch2 d e : obl b ch1 ch2 -> forall n depth s1 s2 lk,
-  Rb b (snd (chase_loop ch1 d e n depth s1 lk)) (snd (chase_loop ch2 d e n depth s2 lk)).
+Lemma chase_loop_obl v b ch1 ch2 d e : obl v b ch1 ch2 -> forall n depth s1 s2 lk,
+  Rb v b (snd (chase_loop ch1 d e n depth s1 lk)) (snd (chase_loop ch2 d e n depth s2 lk)).
 Proof.
-  intros H. induction n as [|n IH]; intros depth s1 s2 lk; [apply Rb_refl|]. rewrite !chase_loop_S.
-  pose proof (hop_obl b ch1 ch2 d e s1 s2 lk H) as Hh.
+  intros H. induction n as [|n IH]; intros depth s1 s2 lk; [apply (Rb_refl v)|]. rewrite !chase_loop_S.
+  pose proof (hop_obl v b ch1 ch2 d e s1 s2 lk H) as Hh.
   destruct (hop ch1 d e s1 lk) as [a1 h1], (hop ch2 d e s2 lk) as [a2 h2]. cbn [snd] in Hh.
   destruct Hh as [<-|[Hb ->]].
-  - destruct h1 as [[t|]|x]; try apply Rb_refl. destruct (depth + 1 >? ADF_MAXIMUM_LINK_DEPTH); [apply Rb_refl|apply IH].
+  - destruct h1 as [[t|]|x]; try apply (Rb_refl v). destruct (depth + 1 >? ADF_MAXIMUM_LINK_DEPTH); [apply (Rb_refl v)|apply IH].
   - right. split; [assumption|reflexivity].
 Qed.
 
-Lemma chase_false_S f d e s i :
+Lemma chase_false_S v f d e s i :
   snd (chase v false (S f) d e s i) = snd (chase_loop (chase v false f d e) d e LOOP_FUEL 0 s i).
 Proof.
   cbn [chase]. assert (Hb : snd (let '(s', r) := chase_loop (chase v false f d e) d e LOOP_FUEL 0 s i in
@@ -971,46 +978,46 @@ Proof.
 Qed.
 
 (* full resolution does not depend on the state it starts from ... *)
-Theorem resolve_state_independent d e : forall F, obl false (U d e F) (U d e F).
+Theorem resolve_state_independent v d e : forall F, obl v false (U v d e F) (U v d e F).
 Proof.
-  induction F as [|F IH]; intros s1 s2 i; [now left|]. unfold U in *. rewrite !chase_false_S. now apply chase_loop_obl.
+  induction F as [|F IH]; intros s1 s2 i; [now left|]. unfold U in *. rewrite !(chase_false_S v). now apply (chase_loop_obl v).
 Qed.
 
 (* ... and a larger recursion budget only turns "out of budget" into an answer *)
-Theorem resolve_budget_monotone d e : forall F, obl true (U d e F) (U d e (S F)).
+Theorem resolve_budget_monotone v d e : forall F, obl v true (U v d e F) (U v d e (S F)).
 Proof.
-  induction F as [|F IH]; intros s1 s2 i; [right; split; reflexivity|]. unfold U in *. rewrite !chase_false_S.
-  now apply chase_loop_obl.
+  induction F as [|F IH]; intros s1 s2 i; [right; split; reflexivity|]. unfold U in *. rewrite !(chase_false_S v).
+  now apply (chase_loop_obl v).
 Qed.
 
-Lemma U_mono d e F G s1 s2 i r : snd (U d e F s1 i) = r -> r <> Err EStack -> (F <= G)%nat -> snd (U d e G s2 i) = r.
+Lemma U_mono v d e F G s1 s2 i r : snd (U v d e F s1 i) = r -> r <> Err (oob v) -> (F <= G)%nat -> snd (U v d e G s2 i) = r.
 Proof.
   intros H Hr Hle. induction Hle as [|G Hle IH].
-  - destruct (resolve_state_independent d e F s1 s2 i) as [E|[E _]]; [congruence|discriminate].
-  - destruct (resolve_budget_monotone d e G s2 s2 i) as [E|[_ E]]; [congruence|congruence].
+  - destruct (resolve_state_independent v d e F s1 s2 i) as [E|[E _]]; [congruence|discriminate].
+  - destruct (resolve_budget_monotone v d e G s2 s2 i) as [E|[_ E]]; [congruence|congruence].
 Qed.
 
 (* the limit: what full resolution answers once the budget is large enough *)
-Definition resolves_to (d : disk) (e : env) (i : nid) (r : res nid) : Prop :=
-  exists F0, forall F s0, (F0 <= F)%nat -> snd (U d e F s0 i) = r.
+Definition resolves_to v (d : disk) (e : env) (i : nid) (r : res nid) : Prop :=
+  exists F0, forall F s0, (F0 <= F)%nat -> snd (U v d e F s0 i) = r.
 
-Lemma resolves_to_from d e F s i r : snd (U d e F s i) = r -> r <> Err EStack -> resolves_to d e i r.
-Proof. intros H Hr. exists F. intros G s0 Hle. now apply (U_mono d e F G s s0 i). Qed.
+Lemma resolves_to_from v d e F s i r : snd (U v d e F s i) = r -> r <> Err (oob v) -> resolves_to v d e i r.
+Proof. intros H Hr. exists F. intros G s0 Hle. now apply (U_mono v d e F G s s0 i). Qed.
 
-Definition coherent (d : disk) (e : env) (s : rs) : Prop :=
-  match r_cache s with Some (k, l) => resolves_to d e k (Ok l) | None => True end.
+Definition coherent v (d : disk) (e : env) (s : rs) : Prop :=
+  match r_cache s with Some (k, l) => resolves_to v d e k (Ok l) | None => True end.
 
-(* a cached chaser that (1) keeps the cache coherent and (2) answers what full resolution answers in the limit *)
-Definition sim (d : disk) (e : env) (ch : chaser) : Prop :=
-  forall s i, coherent d e s ->
-    coherent d e (fst (ch s i)) /\ (snd (ch s i) <> Err EStack -> resolves_to d e i (snd (ch s i))).
+(* a cached chaser that (1) keeps the cache coherent v and (2) answers what full resolution answers in the limit *)
+Definition sim v (d : disk) (e : env) (ch : chaser) : Prop :=
+  forall s i, coherent v d e s ->
+    coherent v d e (fst (ch s i)) /\ (snd (ch s i) <> Err (oob v) -> resolves_to v d e i (snd (ch s i))).
 
-Definition walks_to (d : disk) (e : env) (cur : nid) (toks : list bytes) (r : res nid) : Prop :=
-  exists F0, forall F s0, (F0 <= F)%nat -> snd (gni_walk (U d e F) d s0 cur toks) = r.
+Definition walks_to v (d : disk) (e : env) (cur : nid) (toks : list bytes) (r : res nid) : Prop :=
+  exists F0, forall F s0, (F0 <= F)%nat -> snd (gni_walk (U v d e F) d s0 cur toks) = r.
 
-Lemma gni_walk_sim d e ch : sim d e ch -> forall toks s cur, coherent d e s ->
-  coherent d e (fst (gni_walk ch d s cur toks)) /\
-  (snd (gni_walk ch d s cur toks) <> Err EStack -> walks_to d e cur toks (snd (gni_walk ch d s cur toks))).
+Lemma gni_walk_sim v d e ch : sim v d e ch -> forall toks s cur, coherent v d e s ->
+  coherent v d e (fst (gni_walk ch d s cur toks)) /\
+  (snd (gni_walk ch d s cur toks) <> Err (oob v) -> walks_to v d e cur toks (snd (gni_walk ch d s cur toks))).
 Proof.
   intros H. induction toks as [|t rest IH]; intros s cur Hs; cbn [gni_walk].
   - split; [assumption|]. intros _. exists 0%nat. reflexivity.
@@ -1021,108 +1028,108 @@ Proof.
         -- destruct (IH s' l H1) as [I1 I2]. split; [assumption|]. intros Hne.
            destruct (H2 ltac:(discriminate)) as [F1 HF1]. destruct (I2 Hne) as [F2 HF2].
            exists (Nat.max F1 F2). intros F s0 Hle. cbn [gni_walk]. rewrite Ek.
-           pose proof (HF1 F s0 ltac:(lia)) as E1. destruct (U d e F s0 k) as [s1 r1]. cbn [snd] in E1. subst r1.
+           pose proof (HF1 F s0 ltac:(lia)) as E1. destruct (U v d e F s0 k) as [s1 r1]. cbn [snd] in E1. subst r1.
            apply HF2. lia.
         -- split; [assumption|]. intros Hne. destruct (H2 Hne) as [F1 HF1]. exists F1. intros F s0 Hle.
-           cbn [gni_walk]. rewrite Ek. pose proof (HF1 F s0 Hle) as E1. destruct (U d e F s0 k) as [s1 r1].
+           cbn [gni_walk]. rewrite Ek. pose proof (HF1 F s0 Hle) as E1. destruct (U v d e F s0 k) as [s1 r1].
            cbn [snd] in E1. now subst r1.
     + split; [assumption|]. intros _. exists 0%nat. intros F s0 _. cbn [gni_walk]. now rewrite Ek.
 Qed.
 
-Definition gni_to (d : disk) (e : env) (pid : nid) (name : bytes) (r : res nid) : Prop :=
-  exists F0, forall F s0, (F0 <= F)%nat -> snd (get_node_id (U d e F) d s0 pid name) = r.
+Definition gni_to v (d : disk) (e : env) (pid : nid) (name : bytes) (r : res nid) : Prop :=
+  exists F0, forall F s0, (F0 <= F)%nat -> snd (get_node_id (U v d e F) d s0 pid name) = r.
 
-Lemma get_node_id_sim d e ch s pid name : sim d e ch -> coherent d e s ->
-  coherent d e (fst (get_node_id ch d s pid name)) /\
-  (snd (get_node_id ch d s pid name) <> Err EStack -> gni_to d e pid name (snd (get_node_id ch d s pid name))).
+Lemma get_node_id_sim v d e ch s pid name : sim v d e ch -> coherent v d e s ->
+  coherent v d e (fst (get_node_id ch d s pid name)) /\
+  (snd (get_node_id ch d s pid name) <> Err (oob v) -> gni_to v d e pid name (snd (get_node_id ch d s pid name))).
 Proof.
   intros H Hs. unfold gni_to, get_node_id. destruct (lenZ name =? 0); [split; [assumption|intros _; exists 0%nat; reflexivity]|].
   destruct ((hd 0 name =? 47) && (lenZ name =? 1)); [split; [assumption|intros _; exists 0%nat; reflexivity]|].
   destruct (tokens name) as [|t toks]; [split; [assumption|intros _; exists 0%nat; reflexivity]|].
   set (start := if hd 0 name =? 47 then root_of pid else pid).
   destruct (H s start Hs) as [H1 H2]. destruct (ch s start) as [s1 [l|x]] eqn:Ec; cbn [fst snd] in *.
-  - destruct (gni_walk_sim d e ch H (t :: toks) s1 l H1) as [I1 I2]. split; [assumption|]. intros Hne.
+  - destruct (gni_walk_sim v d e ch H (t :: toks) s1 l H1) as [I1 I2]. split; [assumption|]. intros Hne.
     destruct (H2 ltac:(discriminate)) as [F1 HF1]. destruct (I2 Hne) as [F2 HF2].
     exists (Nat.max F1 F2). intros F s0 Hle.
-    pose proof (HF1 F s0 ltac:(lia)) as E1. destruct (U d e F s0 start) as [a1 r1]. cbn [snd] in E1. subst r1.
+    pose proof (HF1 F s0 ltac:(lia)) as E1. destruct (U v d e F s0 start) as [a1 r1]. cbn [snd] in E1. subst r1.
     apply HF2. lia.
   - split; [assumption|]. intros Hne. destruct (H2 Hne) as [F1 HF1]. exists F1. intros F s0 Hle.
-    pose proof (HF1 F s0 Hle) as E1. destruct (U d e F s0 start) as [a1 r1]. cbn [snd] in E1. now subst r1.
+    pose proof (HF1 F s0 Hle) as E1. destruct (U v d e F s0 start) as [a1 r1]. cbn [snd] in E1. now subst r1.
 Qed.
 
-Definition hop_to (d : disk) (e : env) (lk : nid) (h : res (option nid)) : Prop :=
-  exists F0, forall F s0, (F0 <= F)%nat -> snd (hop (U d e F) d e s0 lk) = h.
+Definition hop_to v (d : disk) (e : env) (lk : nid) (h : res (option nid)) : Prop :=
+  exists F0, forall F s0, (F0 <= F)%nat -> snd (hop (U v d e F) d e s0 lk) = h.
 
-Lemma coherent_log d e s a b : coherent d e s -> coherent d e (log_add s a b).
+Lemma coherent_log v d e s a b : coherent v d e s -> coherent v d e (log_add s a b).
 Proof. intros H. exact H. Qed.
 
-Lemma hop_sim d e ch s lk : sim d e ch -> coherent d e s ->
-  coherent d e (fst (hop ch d e s lk)) /\ (snd (hop ch d e s lk) <> Err EStack -> hop_to d e lk (snd (hop ch d e s lk))).
+Lemma hop_sim v d e ch s lk : sim v d e ch -> coherent v d e s ->
+  coherent v d e (fst (hop ch d e s lk)) /\ (snd (hop ch d e s lk) <> Err (oob v) -> hop_to v d e lk (snd (hop ch d e s lk))).
 Proof.
   intros H Hs. unfold hop_to, hop. destruct (node_at d lk) as [r|]; [|split; [assumption|intros _; exists 0%nat; reflexivity]].
   destruct (adf_link_of r) as [[file path]|]; [|split; [assumption|intros _; exists 0%nat; reflexivity]].
-  assert (G : forall a root, coherent d e a ->
-     coherent d e (fst (let '(s1, r1) := get_node_id ch d a root path in
+  assert (G : forall a root, coherent v d e a ->
+     coherent v d e (fst (let '(s1, r1) := get_node_id ch d a root path in
                   match r1 with Err ENotFound => (s1, Err ELinkTarget) | Err x => (s1, Err x) | Ok t => (s1, Ok (Some t)) end)) /\
      (snd (let '(s1, r1) := get_node_id ch d a root path in
-                  match r1 with Err ENotFound => (s1, Err ELinkTarget) | Err x => (s1, Err x) | Ok t => (s1, Ok (Some t)) end) <> Err EStack ->
+                  match r1 with Err ENotFound => (s1, Err ELinkTarget) | Err x => (s1, Err x) | Ok t => (s1, Ok (Some t)) end) <> Err (oob v) ->
       exists F0, forall F a0, (F0 <= F)%nat ->
-        snd (let '(s1, r1) := get_node_id (U d e F) d a0 root path in
+        snd (let '(s1, r1) := get_node_id (U v d e F) d a0 root path in
              match r1 with Err ENotFound => (s1, Err ELinkTarget) | Err x => (s1, Err x) | Ok t => (s1, Ok (Some t)) end) =
         snd (let '(s1, r1) := get_node_id ch d a root path in
              match r1 with Err ENotFound => (s1, Err ELinkTarget) | Err x => (s1, Err x) | Ok t => (s1, Ok (Some t)) end))).
-  { intros a root Ha. destruct (get_node_id_sim d e ch a root path H Ha) as [G1 G2].
+  { intros a root Ha. destruct (get_node_id_sim v d e ch a root path H Ha) as [G1 G2].
     destruct (get_node_id ch d a root path) as [s1 r1] eqn:Eg; cbn [fst snd] in *.
     split; [destruct r1 as [t|[]]; assumption|]. intros Hne.
-    assert (Hr1 : r1 <> Err EStack) by (intros ->; now apply Hne).
+    assert (Hr1 : r1 <> Err (oob v)) by (intros ->; apply Hne; destruct v; reflexivity).
     destruct (G2 Hr1) as [F1 HF1]. exists F1. intros F a0 Hle. pose proof (HF1 F a0 Hle) as E1.
-    destruct (get_node_id (U d e F) d a0 root path) as [x1 y1]. cbn [snd] in E1. subst y1. destruct r1 as [t|[]]; reflexivity. }
+    destruct (get_node_id (U v d e F) d a0 root path) as [x1 y1]. cbn [snd] in E1. subst y1. destruct r1 as [t|[]]; reflexivity. }
   destruct (nonempty file).
   - destruct (find_file d e (fst lk) file 1 (ADF_FILENAME_LENGTH + 1)); try (split; [assumption|intros _; exists 0%nat; reflexivity]).
-    destruct (G (log_add s (fst lk) p) (p, root_uid) (coherent_log d e s _ _ Hs)) as [G1 G2]. split; [assumption|].
+    destruct (G (log_add s (fst lk) p) (p, root_uid) (coherent_log v d e s _ _ Hs)) as [G1 G2]. split; [assumption|].
     intros Hne. destruct (G2 Hne) as [F1 HF1]. exists F1. intros F s0 Hle. apply HF1. assumption.
   - destruct (G s (root_of lk) Hs) as [G1 G2]. split; [assumption|].
     intros Hne. destruct (G2 Hne) as [F1 HF1]. exists F1. intros F s0 Hle. apply HF1. assumption.
 Qed.
 
-Definition loop_to (d : disk) (e : env) (n : nat) (depth : Z) (lk : nid) (r : res nid) : Prop :=
-  exists F0, forall F s0, (F0 <= F)%nat -> snd (chase_loop (U d e F) d e n depth s0 lk) = r.
+Definition loop_to v (d : disk) (e : env) (n : nat) (depth : Z) (lk : nid) (r : res nid) : Prop :=
+  exists F0, forall F s0, (F0 <= F)%nat -> snd (chase_loop (U v d e F) d e n depth s0 lk) = r.
 
-Lemma chase_loop_sim d e ch : sim d e ch -> forall n depth s lk, coherent d e s ->
-  coherent d e (fst (chase_loop ch d e n depth s lk)) /\
-  (snd (chase_loop ch d e n depth s lk) <> Err EStack -> loop_to d e n depth lk (snd (chase_loop ch d e n depth s lk))).
+Lemma chase_loop_sim v d e ch : sim v d e ch -> forall n depth s lk, coherent v d e s ->
+  coherent v d e (fst (chase_loop ch d e n depth s lk)) /\
+  (snd (chase_loop ch d e n depth s lk) <> Err (oob v) -> loop_to v d e n depth lk (snd (chase_loop ch d e n depth s lk))).
 Proof.
-  intros H. induction n as [|n IH]; intros depth s lk Hs; [split; [assumption|intros Hne; now contradiction Hne]|].
-  unfold loop_to. rewrite chase_loop_S. destruct (hop_sim d e ch s lk H Hs) as [H1 H2].
+  intros H. induction n as [|n IH]; intros depth s lk Hs; [split; [assumption|intros _; exists 0%nat; reflexivity]|].
+  unfold loop_to. rewrite chase_loop_S. destruct (hop_sim v d e ch s lk H Hs) as [H1 H2].
   destruct (hop ch d e s lk) as [s1 h] eqn:Eh; cbn [fst snd] in *.
   destruct h as [[t|]|x].
   - destruct (H2 ltac:(discriminate)) as [F1 HF1].
     destruct (depth + 1 >? ADF_MAXIMUM_LINK_DEPTH) eqn:Ed.
     + split; [assumption|]. intros _. exists F1. intros F s0 Hle. rewrite chase_loop_S.
-      pose proof (HF1 F s0 Hle) as E1. destruct (hop (U d e F) d e s0 lk) as [a1 h1]. cbn [snd] in E1. subst h1. now rewrite Ed.
+      pose proof (HF1 F s0 Hle) as E1. destruct (hop (U v d e F) d e s0 lk) as [a1 h1]. cbn [snd] in E1. subst h1. now rewrite Ed.
     + destruct (IH (depth + 1) s1 t H1) as [I1 I2]. split; [assumption|]. intros Hne. destruct (I2 Hne) as [F2 HF2].
       exists (Nat.max F1 F2). intros F s0 Hle. rewrite chase_loop_S.
-      pose proof (HF1 F s0 ltac:(lia)) as E1. destruct (hop (U d e F) d e s0 lk) as [a1 h1]. cbn [snd] in E1. subst h1.
+      pose proof (HF1 F s0 ltac:(lia)) as E1. destruct (hop (U v d e F) d e s0 lk) as [a1 h1]. cbn [snd] in E1. subst h1.
       rewrite Ed. apply HF2. lia.
   - destruct (H2 ltac:(discriminate)) as [F1 HF1]. split; [assumption|]. intros _. exists F1. intros F s0 Hle.
-    rewrite chase_loop_S. pose proof (HF1 F s0 Hle) as E1. destruct (hop (U d e F) d e s0 lk) as [a1 h1]. cbn [snd] in E1.
+    rewrite chase_loop_S. pose proof (HF1 F s0 Hle) as E1. destruct (hop (U v d e F) d e s0 lk) as [a1 h1]. cbn [snd] in E1.
     now subst h1.
   - split; [assumption|]. intros Hne.
-    assert (Hx : @Err (option nid) x <> Err EStack) by (intros E; inversion E; subst x; now apply Hne).
+    assert (Hx : @Err (option nid) x <> Err (oob v)) by (intros E; inversion E; subst x; now apply Hne).
     destruct (H2 Hx) as [F1 HF1]. exists F1. intros F s0 Hle.
-    rewrite chase_loop_S. pose proof (HF1 F s0 Hle) as E1. destruct (hop (U d e F) d e s0 lk) as [a1 h1]. cbn [snd] in E1.
+    rewrite chase_loop_S. pose proof (HF1 F s0 Hle) as E1. destruct (hop (U v d e F) d e s0 lk) as [a1 h1]. cbn [snd] in E1.
     now subst h1.
 Qed.
 
-Lemma resolves_ok_node d e k l : resolves_to d e k (Ok l) -> nonlink d l.
+Lemma resolves_ok_node v d e k l : resolves_to v d e k (Ok l) -> nonlink d l.
 Proof.
   intros [F0 HF]. pose proof (HF F0 rs0 (le_n _)) as E. unfold U in E.
   destruct (chase_pres v false d e F0 rs0 k I) as [_ P2]. now apply P2.
 Qed.
 
-(* CACHE SOUNDNESS: for every world, from a coherent state the cached resolution keeps the state coherent and, unless it
+(* CACHE SOUNDNESS: for every world, from a coherent v state the cached resolution keeps the state coherent v and, unless it
    runs out of recursion budget, answers exactly what full (cache-free) resolution answers once its budget suffices *)
-Theorem chase_sim d e : forall f, sim d e (chase v true f d e).
+Theorem chase_sim v d e : forall f, sim v d e (chase v true f d e).
 Proof.
   induction f as [|f IH]; intros s i Hs; [split; [assumption|intros Hne; now contradiction Hne]|].
   cbn [chase].
@@ -1130,33 +1137,33 @@ Proof.
                     match r with
                     | Ok l => ((if true && negb (nid_eqb l i) then mkRs (Some (i, l)) (r_log s') else s'), Ok l)
                     | Err x => (s', Err x)
-                    end) in coherent d e (fst x) /\ (snd x <> Err EStack -> resolves_to d e i (snd x))).
-  { destruct (chase_loop_sim d e _ IH LOOP_FUEL 0 s i Hs) as [H1 H2].
+                    end) in coherent v d e (fst x) /\ (snd x <> Err (oob v) -> resolves_to v d e i (snd x))).
+  { destruct (chase_loop_sim v d e _ IH LOOP_FUEL 0 s i Hs) as [H1 H2].
     destruct (chase_loop (chase v true f d e) d e LOOP_FUEL 0 s i) as [s' r] eqn:El; cbn [fst snd] in *.
-    assert (Hlim : r <> Err EStack -> resolves_to d e i r).
+    assert (Hlim : r <> Err (oob v) -> resolves_to v d e i r).
     { intros Hne. destruct (H2 Hne) as [F1 HF1]. exists (S F1). intros F s0 Hle. destruct F as [|F]; [lia|].
-      unfold U. rewrite chase_false_S. apply HF1. lia. }
+      unfold U. rewrite (chase_false_S v). apply HF1. lia. }
     destruct r as [l|x]; cbn [fst snd]; [|split; assumption].
     split; [|assumption]. cbn [andb]. destruct (negb (nid_eqb l i)); [|assumption].
     unfold coherent. cbn [r_cache]. apply Hlim. discriminate. }
   cbv zeta in Hb. destruct (r_cache s) as [[k l]|] eqn:Ec; [|exact Hb].
   cbn [andb]. destruct (nid_eqb k i) eqn:Ek; [|exact Hb]. apply nid_eqb_eq in Ek. subst k. cbn [fst snd].
   split; [assumption|]. unfold coherent in Hs. rewrite Ec in Hs.
-  destruct (resolves_ok_node d e i l Hs) as [r [Hr _]]. rewrite Hr. intros _. exact Hs.
+  destruct (resolves_ok_node v d e i l Hs) as [r [Hr _]]. rewrite Hr. intros _. exact Hs.
 Qed.
 
-(* reading through a link from a coherent state returns an attribute of THE target: the node full resolution reaches *)
-Theorem cached_read_is_full_resolution fuel d e s i what s' v :
-  cache_sane d s -> coherent d e s -> adf_get v true fuel d e s i what = (s', AVal v) -> what <> 0 -> what <> 4 -> what <> 5 ->
-  exists l, resolves_to d e i (Ok l) /\ nonlink d l /\ v = node_attr d l what /\ cache_sane d s' /\ coherent d e s'.
+(* reading through a link from a coherent v state returns an attribute of THE target: the node full resolution reaches *)
+Theorem cached_read_is_full_resolution v fuel d e s i what s' val :
+  cache_sane d s -> coherent v d e s -> adf_get v true fuel d e s i what = (s', AVal val) -> what <> 0 -> what <> 4 -> what <> 5 ->
+  exists l, resolves_to v d e i (Ok l) /\ nonlink d l /\ val = node_attr d l what /\ cache_sane d s' /\ coherent v d e s'.
 Proof.
-  intros Hs Hc H H0 H4 H5. destruct (adf_transparent true fuel d e s i what s' v Hs H H0 H4 H5) as [l [E [Hn [Hv Hs']]]].
-  destruct (chase_sim d e fuel s i Hc) as [C1 C2]. rewrite E in C1, C2. cbn [fst snd] in *.
+  intros Hs Hc H H0 H4 H5. destruct (adf_transparent v true fuel d e s i what s' val Hs H H0 H4 H5) as [l [E [Hn [Hv Hs']]]].
+  destruct (chase_sim v d e fuel s i Hc) as [C1 C2]. rewrite E in C1, C2. cbn [fst snd] in *.
   exists l. repeat split; try assumption. apply C2. discriminate.
 Qed.
 
 (* ===================================================================================================================
-   12. which mutations keep the cache coherent: all of them except the rename
+   12. which mutations keep the cache coherent v: all of them except the rename
    =================================================================================================================== *)
 (* d' extends d: same files of the same types, every node still there with the same link payload, every name that was
    found under a node still names the same child *)
@@ -1223,14 +1230,14 @@ Proof.
   destruct h as [t|]; [|auto]. destruct (depth + 1 >? ADF_MAXIMUM_LINK_DEPTH); [discriminate|apply IH].
 Qed.
 
-Lemma U_ext d d' e : ext d d' -> forall F, okp (U d e F) (U d' e F).
+Lemma U_ext v d d' e : ext d d' -> forall F, okp (U v d e F) (U v d' e F).
 Proof.
-  intros He. induction F as [|F IH]; intros s s' i l; [discriminate|]. unfold U in *. rewrite !chase_false_S.
+  intros He. induction F as [|F IH]; intros s s' i l; [discriminate|]. unfold U in *. rewrite !(chase_false_S v).
   now apply (chase_loop_ext d d' e _ _ He IH).
 Qed.
 
-Theorem resolves_to_ext d d' e k l : ext d d' -> resolves_to d e k (Ok l) -> resolves_to d' e k (Ok l).
-Proof. intros He [F0 HF]. exists F0. intros F s0 Hle. apply (U_ext d d' e He F s0 s0). now apply HF. Qed.
+Theorem resolves_to_ext v d d' e k l : ext d d' -> resolves_to v d e k (Ok l) -> resolves_to v d' e k (Ok l).
+Proof. intros He [F0 HF]. exists F0. intros F s0 Hle. apply (U_ext v d d' e He F s0 s0). now apply HF. Qed.
 
 (* table-level extension *)
 Definition text (t t' : table) : Prop :=
@@ -1352,22 +1359,27 @@ Proof.
     + rewrite Hoth; [auto|]. now apply lk_bytes_eqb_false.
 Qed.
 
-Definition acoherent (s : ast) : Prop := coherent (a_disk s) (a_env s) (mkRs (a_cache s) []).
+(* Old: every mutation but the rename; Cur: every mutation *)
+Definition ren_ok (v : ver) (o : op) : Prop :=
+  match v with Cur => True | Old => forall p u nm, o <> ORename p u nm end.
+
+Definition acoherent v (s : ast) : Prop := coherent v (a_disk s) (a_env s) (mkRs (a_cache s) []).
 
 (* CACHE COHERENCE UNDER MUTATION: whatever the state, whatever the operation -- create, link, delete, move, relabel,
-   re-dimension, any write, any query, accepted or refused -- a coherent cache stays coherent.  The only modelled
+   re-dimension, any write, any query, accepted or refused -- a coherent v cache stays coherent v.  The only modelled
    mutation missing from this list is the rename (C08_cache_refuted shows why). *)
-Theorem mutate_keeps_coherent s f o s' r : (forall p u nm, o <> ORename p u nm) ->
-  acoherent s -> adf_mutate v s f o = (s', r) -> acoherent s'.
+Theorem mutate_keeps_coherent v s f o s' r : ren_ok v o ->
+  acoherent v s -> adf_mutate v s f o = (s', r) -> acoherent v s'.
 Proof.
-  intros Hnr Hc H. unfold adf_mutate in H. destruct (negb (file_open s f)); [inversion H; subst; exact Hc|].
+  intros Hnr Hc H. destruct v; cbn [ren_ok] in Hnr.
+  all: revert Hnr Hc H; match goal with |- context [acoherent ?w s] => set (v := w) end; intros Hnr Hc H. unfold adf_mutate in H. destruct (negb (file_open s f)); [inversion H; subst; exact Hc|].
   destruct (disk_get (a_disk s) f) as [df|] eqn:Eg; [|inversion H; subst; exact Hc].
   destruct (step_table false (d_tab df) o) as [t' r0] eqn:Es.
   assert (Hkeep : forall c caps chunks, (c = None \/ (c = a_cache s /\ keeps_structure o = true)) ->
-            acoherent (mkAst (disk_set (a_disk s) (mkD f (d_type df) t')) c (a_slots s) caps chunks (a_env s))).
+            acoherent v (mkAst (disk_set (a_disk s) (mkD f (d_type df) t')) c (a_slots s) caps chunks (a_env s))).
   { intros c caps chunks [->|[-> Hk]]; unfold acoherent, coherent; cbn [a_disk a_env a_cache r_cache]; [exact I|].
     unfold acoherent, coherent in Hc. cbn [r_cache] in Hc. destruct (a_cache s) as [[k l]|]; [|exact I].
-    apply (resolves_to_ext (a_disk s)); [|exact Hc]. apply ext_of_text; [exact Eg|]. now apply (text_step _ o _ r0). }
+    apply (resolves_to_ext v (a_disk s)); [|exact Hc]. apply ext_of_text; [exact Eg|]. now apply (text_step _ o _ r0). }
   assert (Hci : forall b c, c = a_cache s -> keeps_structure o = true ->
             clear_if b c = None \/ (clear_if b c = a_cache s /\ keeps_structure o = true)).
   { intros b c -> Hk. destruct b; [now left|right; split; [reflexivity|assumption]]. }
@@ -1384,20 +1396,20 @@ Qed.
 
 (* reads and look-ups keep it too (cache soundness), so: along EVERY history of reads, look-ups and mutations other than
    the rename, in a fixed search environment, every answer read through a link is the answer of full resolution *)
-Theorem read_keeps_coherent fuel s i what : acoherent s -> acoherent (fst (adf_read v fuel s i what)).
+Theorem read_keeps_coherent v fuel s i what : acoherent v s -> acoherent v (fst (adf_read v fuel s i what)).
 Proof.
   intros Hc. unfold adf_read. destruct (negb (file_open s (fst i))); [exact Hc|].
   unfold adf_get. destruct (node_at (a_disk s) i); [|exact Hc].
   destruct (what =? 0); [exact Hc|]. destruct (what =? 4); [exact Hc|]. destruct (what =? 5); [exact Hc|].
-  destruct (chase_sim (a_disk s) (a_env s) fuel (mkRs (a_cache s) []) i Hc) as [C1 _].
+  destruct (chase_sim v (a_disk s) (a_env s) fuel (mkRs (a_cache s) []) i Hc) as [C1 _].
   destruct (chase v true fuel (a_disk s) (a_env s) (mkRs (a_cache s) []) i) as [x [l|e]]; cbn [fst] in *;
     unfold acoherent, commit; cbn [a_disk a_env a_cache]; unfold coherent in *; cbn [r_cache] in *; exact C1.
 Qed.
 
-Theorem lookup_keeps_coherent fuel s i name : acoherent s -> acoherent (fst (adf_lookup v fuel s i name)).
+Theorem lookup_keeps_coherent v fuel s i name : acoherent v s -> acoherent v (fst (adf_lookup v fuel s i name)).
 Proof.
   intros Hc. unfold adf_lookup. destruct (negb (file_open s (fst i))); [exact Hc|]. unfold lookup.
-  destruct (get_node_id_sim (a_disk s) (a_env s) _ (mkRs (a_cache s) []) i name (chase_sim (a_disk s) (a_env s) fuel) Hc) as [C1 _].
+  destruct (get_node_id_sim v (a_disk s) (a_env s) _ (mkRs (a_cache s) []) i name (chase_sim v (a_disk s) (a_env s) fuel) Hc) as [C1 _].
   destruct (get_node_id (chase v true fuel (a_disk s) (a_env s)) (a_disk s) (mkRs (a_cache s) []) i name) as [x r]; cbn [fst] in *.
   unfold acoherent, commit; cbn [a_disk a_env a_cache]; unfold coherent in *; cbn [r_cache] in *; exact C1.
 Qed.
@@ -1412,10 +1424,10 @@ Qed.
 
 Definition asane (s : ast) : Prop := cache_sane (a_disk s) (mkRs (a_cache s) []).
 
-Theorem mutate_keeps_sane s f o s' r : (forall p u nm, o <> ORename p u nm) ->
+Theorem mutate_keeps_sane v s f o s' r : ren_ok v o ->
   asane s -> adf_mutate v s f o = (s', r) -> asane s'.
 Proof.
-  intros Hnr Hc H. unfold adf_mutate in H. destruct (negb (file_open s f)); [inversion H; subst; exact Hc|].
+  intros Hnr Hc H. destruct v; cbn [ren_ok] in Hnr. unfold adf_mutate in H. destruct (negb (file_open s f)); [inversion H; subst; exact Hc|].
   destruct (disk_get (a_disk s) f) as [df|] eqn:Eg; [|inversion H; subst; exact Hc].
   destruct (step_table false (d_tab df) o) as [t' r0] eqn:Es.
   assert (Hkeep : forall c caps chunks, (c = None \/ (c = a_cache s /\ keeps_structure o = true)) ->
@@ -1436,7 +1448,7 @@ Proof.
     try (apply Hkeep; first [now left | right; split; reflexivity | apply Hci; reflexivity]).
 Qed.
 
-Theorem read_keeps_sane fuel s i what : asane s -> asane (fst (adf_read v fuel s i what)).
+Theorem read_keeps_sane v fuel s i what : asane s -> asane (fst (adf_read v fuel s i what)).
 Proof.
   intros Hc. unfold adf_read. destruct (negb (file_open s (fst i))); [exact Hc|].
   unfold adf_get. destruct (node_at (a_disk s) i); [|exact Hc].
@@ -1446,7 +1458,7 @@ Proof.
     unfold asane, commit; cbn [a_disk a_env a_cache]; unfold cache_sane in *; cbn [r_cache] in *; exact C1.
 Qed.
 
-Theorem lookup_keeps_sane fuel s i name : asane s -> asane (fst (adf_lookup v fuel s i name)).
+Theorem lookup_keeps_sane v fuel s i name : asane s -> asane (fst (adf_lookup v fuel s i name)).
 Proof.
   intros Hc. unfold adf_lookup. destruct (negb (file_open s (fst i))); [exact Hc|]. unfold lookup.
   pose proof (get_node_id_pres (cache_sane (a_disk s)) (nonlink (a_disk s)) _ (a_disk s) (mkRs (a_cache s) []) i name
@@ -1457,48 +1469,48 @@ Qed.
 
 (* ---- histories --------------------------------------------------------------------------------------------------- *)
 Inductive ev := ERead (i : nid) (what : Z) | ELookup (i : nid) (name : bytes) | EMut (f : bytes) (o : op).
-Definition ev_ok (x : ev) : Prop := match x with EMut _ o => forall p u nm, o <> ORename p u nm | _ => True end.
-Definition ev_step (fuel : nat) (s : ast) (x : ev) : ast :=
+Definition ev_ok (v : ver) (x : ev) : Prop := match x with EMut _ o => ren_ok v o | _ => True end.
+Definition ev_step v (fuel : nat) (s : ast) (x : ev) : ast :=
   match x with
   | ERead i w => fst (adf_read v fuel s i w)
   | ELookup i n => fst (adf_lookup v fuel s i n)
   | EMut f o => fst (adf_mutate v s f o)
   end.
-Definition run_evs (fuel : nat) (s : ast) (l : list ev) : ast := fold_left (ev_step fuel) l s.
+Definition run_evs v (fuel : nat) (s : ast) (l : list ev) : ast := fold_left (ev_step v fuel) l s.
 
-Lemma run_keeps fuel : forall l s, Forall ev_ok l -> asane s /\ acoherent s -> asane (run_evs fuel s l) /\ acoherent (run_evs fuel s l).
+Lemma run_keeps v fuel : forall l s, Forall ev_ok v l -> asane s /\ acoherent v s -> asane (run_evs v fuel s l) /\ acoherent v (run_evs v fuel s l).
 Proof.
-  induction l as [|x l IH]; intros s Hf Hs; [exact Hs|]. inversion Hf as [|? ? Hx Hl]; subst. cbn [run_evs fold_left].
-  apply IH; [assumption|]. destruct Hs as [Hs Hc]. destruct x as [i w|i n|f o]; cbn [ev_step].
-  - split; [now apply read_keeps_sane|now apply read_keeps_coherent].
-  - split; [now apply lookup_keeps_sane|now apply lookup_keeps_coherent].
+  induction l as [|x l IH]; intros s Hf Hs; [exact Hs|]. inversion Hf as [|? ? Hx Hl]; subst. cbn [run_evs v fold_left].
+  apply IH; [assumption|]. destruct Hs as [Hs Hc]. destruct x as [i w|i n|f o]; cbn [ev_step v].
+  - split; [now apply (read_keeps_sane v)|now apply (read_keeps_coherent v)].
+  - split; [now apply (lookup_keeps_sane v)|now apply (lookup_keeps_coherent v)].
   - cbn in Hx. destruct (adf_mutate v s f o) as [s' r] eqn:E. cbn [fst].
-    split; [now apply (mutate_keeps_sane s f o s' r)|now apply (mutate_keeps_coherent s f o s' r)].
+    split; [now apply (mutate_keeps_sane v s f o s' r)|now apply (mutate_keeps_coherent v s f o s' r)].
 Qed.
 
 (* CACHE COHERENT EXCEPT FOR RENAME: start from an empty cache, run ANY history of reads, look-ups and mutations that
    contains no rename (the search environment fixed); then whatever is read through any link afterwards is an
    attribute of the node that full, cache-free resolution reaches from that link *)
-Theorem cache_coherent_without_rename fuel s0 l i what v :
-  a_cache s0 = None -> Forall ev_ok l ->
-  let s := run_evs fuel s0 l in
-  file_open s (fst i) = true -> snd (adf_read v fuel s i what) = AVal v -> what <> 0 -> what <> 4 -> what <> 5 ->
-  exists t, resolves_to (a_disk s) (a_env s) i (Ok t) /\ nonlink (a_disk s) t /\ v = node_attr (a_disk s) t what.
+Theorem cache_coherent_without_rename v fuel s0 l i what val :
+  a_cache s0 = None -> Forall ev_ok v l ->
+  let s := run_evs v fuel s0 l in
+  file_open s (fst i) = true -> snd (adf_read v fuel s i what) = AVal val -> what <> 0 -> what <> 4 -> what <> 5 ->
+  exists t, resolves_to v (a_disk s) (a_env s) i (Ok t) /\ nonlink (a_disk s) t /\ val = node_attr (a_disk s) t what.
 Proof.
   intros H0 Hf s Ho Hr W0 W4 W5.
-  assert (Hinit : asane s0 /\ acoherent s0) by (unfold asane, acoherent, cache_sane, coherent; cbn [r_cache]; rewrite H0; split; exact I).
-  destruct (run_keeps fuel l s0 Hf Hinit) as [Hs Hc]. fold s in Hs, Hc.
+  assert (Hinit : asane s0 /\ acoherent v s0) by (unfold asane, acoherent v, cache_sane, coherent v; cbn [r_cache]; rewrite H0; split; exact I).
+  destruct (run_keeps v fuel l s0 Hf Hinit) as [Hs Hc]. fold s in Hs, Hc.
   unfold adf_read in Hr. rewrite Ho in Hr. cbn [negb] in Hr.
   destruct (adf_get v true fuel (a_disk s) (a_env s) (mkRs (a_cache s) []) i what) as [x a] eqn:E. cbn [snd] in Hr. subst a.
-  destruct (cached_read_is_full_resolution fuel _ _ _ i what x v Hs Hc E W0 W4 W5) as [t [R [N [V _]]]].
+  destruct (cached_read_is_full_resolution v fuel _ _ _ i what x val Hs Hc E W0 W4 W5) as [t [R [N [V _]]]].
   exists t. auto.
 Qed.
 
 Example history_without_rename :
   let h := [EMut fA (OCreate 0 1 bA); EMut fA (OCreate 1 2 bB); EMut fA (OLabel 2 [76; 98]);
             EMut fA (OLink 0 3 [76] [] [47; 65; 47; 66]); ERead (fA, 3) 1; EMut fA (OCreate 1 4 bC); EMut fA (OLabel 2 [120])] in
-  Forall ev_ok h /\
-  snd (adf_read 8 (run_evs 8 (s_of (adf_open ast0 fA true)) h) (fA, 3) 1) = AVal (RBytes [120]).
+  Forall ev_ok v h /\
+  snd (adf_read 8 (run_evs v 8 (s_of (adf_open ast0 fA true)) h) (fA, 3) 1) = AVal (RBytes [120]).
 Proof.
   cbv zeta. split; [|vm_compute; reflexivity].
   repeat constructor; cbn; intros; discriminate.
